@@ -808,8 +808,10 @@ class SigmaCorrelationRule(SigmaRuleBase, ProcessingItemTrackingMixin):
 
         # The alias definitions refer to rules as well (possibly by another identifier than the rule
         # list: name vs. id)
-        for alias in self.aliases:
-            alias.resolve_rule_references(rule_collection)
+        # (when errors are collected, an alias definition of a wrong type is kept as it was given)
+        if isinstance(self.aliases, SigmaCorrelationFieldAliases):
+            for alias in self.aliases:
+                alias.resolve_rule_references(rule_collection)
 
     def flatten_rules(
         self: Self, include_correlations: bool = True
